@@ -719,5 +719,44 @@ theorem runMS_good (hH : HashOK H) {S : Tree → Prop} (hi : Inj H S) {names : L
     · have : k + 1 + rest.length = k + (rest.length + 1) := by omega
       simpa [histsAfter, this] using g''
 
+
+/-- The commit ids reported along a history are exactly the ids of the commit infos left on disk, and
+a later commit never touches an earlier commit info. -/
+theorem runMS_ids (hH : HashOK H) {S : Tree → Prop} (hi : Inj H S) {names : List Name} :
+    ∀ (blocks : List (List Name × (Name → Option Tree))) (hs : Name → List (Option Tree)) (k : Nat) (s : MStore),
+      GoodMS H S names hs k s → GoodBlocks S names hs k blocks →
+      ∃ s' ids, runMS H s (blocks.map fun b => (b.1, fullBlock names b.2)) = some (s', ids) ∧
+        GoodMS H S names (histsAfter hs blocks) (k + blocks.length) s' ∧
+        (∀ v : Int, v ≤ k → aget v s'.cinfos = aget v s.cinfos) ∧
+        (∀ (i : Nat) (c : CID), ids[i]? = some c → (aget ((k : Int) + i + 1) s'.cinfos).map (·.commitID H) = some c) := by
+  intro blocks
+  induction blocks with
+  | nil => intro hs k s g _; exact ⟨s, [], rfl, by simpa [histsAfter] using g, fun _ _ => rfl, fun i c h => by simp at h⟩
+  | cons b rest ih =>
+    intro hs k s g hb
+    obtain ⟨order, nx⟩ := b
+    obtain ⟨ho, hstep, hrest⟩ := hb
+    obtain ⟨s', dbOf, hc, g', _, hci, _⟩ := commitMS_good hH hi g nx order ho hstep
+    obtain ⟨s'', ids, hrun, g'', hkeep, hids⟩ := ih _ _ s' g' hrest
+    refine ⟨s'', ⟨(k : Int) + 1, (nextCI (H := H) order nx k).hash H⟩ :: ids, ?_, ?_, ?_, ?_⟩
+    · simp only [List.map_cons, runMS, hc, hrun, Option.map_some]
+    · have : k + 1 + rest.length = k + (rest.length + 1) := by omega
+      simpa [histsAfter, this] using g''
+    · intro v hv
+      rw [hkeep v (by push_cast; omega), hci, aget_aput_ne (by omega)]
+    · intro i c hic
+      cases i with
+      | zero =>
+        simp at hic; subst hic
+        have := hkeep ((k : Int) + 1) (by push_cast; omega)
+        simp only [Int.natCast_zero, Int.add_zero]
+        rw [this, hci, aget_aput_self]; rfl
+      | succ i =>
+        simp only [List.getElem?_cons_succ] at hic
+        have := hids i c hic
+        have e : (((k + 1 : Nat) : Int) + i + 1) = ((k : Int) + ((i + 1 : Nat) : Int) + 1) := by push_cast; omega
+        rw [e] at this
+        exact this
+
 end ms
 end NodeDB
